@@ -242,7 +242,7 @@ fn maybe_flip(p: Pos, rng: &mut Rng) -> Pos {
 /// one move away or already in force.
 pub fn pattern(rng: &mut Rng) -> (Pos, &'static str) {
     for _ in 0..200 {
-        let which = rng.below(12);
+        let which = rng.below(13);
         let mut p = Pos::empty();
         let name: &'static str;
         match which {
@@ -487,6 +487,13 @@ pub fn pattern(rng: &mut Rng) -> (Pos, &'static str) {
                 }
                 return (best.unwrap().1, name);
             }
+            12 => {
+                // the side to move is in check by a distant slider and has (almost) a single reply of a chosen
+                // class: pawn double-step / single-step interposition, knight interposition, capture of the checker
+                name = "unique_reply_to_check";
+                let q = unique_reply(rng);
+                return (q, name);
+            }
             _ => {
                 // burnable rights and a few shuffling pieces (C11 workloads)
                 name = "rights_and_shufflers";
@@ -577,4 +584,117 @@ pub fn arbitrary_builder(rng: &mut Rng) -> (String, Col, u8, u8) {
     let castle = if rng.chance(1, 2) { 0 } else { rng.below(16) as u8 };
     let ep = if rng.chance(2, 3) { 8 } else { rng.below(8) as u8 };
     (String::from_utf8(b).unwrap(), stm, castle, ep)
+}
+
+
+/// Structured rejection sampling for positions in which the side to move is in check and has one
+/// (at most two) legal replies, the intended one being a pawn double-step or single-step interposition,
+/// a knight interposition or a capture of the checker. Falls back to the best candidate seen.
+pub fn unique_reply(rng: &mut Rng) -> Pos {
+    let mut best: Option<(usize, Pos)> = None;
+    for _ in 0..300 {
+        let mut p = Pos::empty();
+        let kf = *rng.pick(&[0i32, 7, 0, 7, 1, 6, 3, 4]);
+        let kr = *rng.pick(&[0i32, 0, 1, 7, 2, 0]);
+        let ks = mk(kf, kr).unwrap();
+        p.sq[ks as usize] = Some((Kind::K, Col::W));
+        let dirs = [(1, 0), (-1, 0), (0, 1), (0, -1), (1, 1), (1, -1), (-1, 1), (-1, -1)];
+        let (df, dr) = *rng.pick(&dirs);
+        let d = rng.range(3, 6) as i32;
+        let ss = match mk(kf + df * d, kr + dr * d) {
+            Some(s) => s,
+            None => continue,
+        };
+        let slider = if df == 0 || dr == 0 { *rng.pick(&[Kind::R, Kind::Q]) } else { *rng.pick(&[Kind::B, Kind::Q]) };
+        p.sq[ss as usize] = Some((slider, Col::B));
+        // the interposer
+        let between: Vec<Sq> = (1..d).filter_map(|i| mk(kf + df * i, kr + dr * i)).collect();
+        let x = *rng.pick(&between);
+        let (xf, xr) = (file_of(x), rank_of(x));
+        match rng.below(4) {
+            0 => {
+                // double step: x on the fourth rank, pawn at home, the square in front of it empty
+                if xr != 3 {
+                    continue;
+                }
+                let home = mk(xf, 1).unwrap();
+                let mid = mk(xf, 2).unwrap();
+                if p.sq[home as usize].is_some() || p.sq[mid as usize].is_some() || between.contains(&mid) || between.contains(&home) {
+                    continue;
+                }
+                p.sq[home as usize] = Some((Kind::P, Col::W));
+            }
+            1 => {
+                if xr < 2 || xr > 6 {
+                    continue;
+                }
+                let from = mk(xf, xr - 1).unwrap();
+                if p.sq[from as usize].is_some() || between.contains(&from) {
+                    continue;
+                }
+                p.sq[from as usize] = Some((Kind::P, Col::W));
+            }
+            2 => {
+                let (a, b) = *rng.pick(&[(1, 2), (2, 1), (2, -1), (1, -2), (-1, -2), (-2, -1), (-2, 1), (-1, 2)]);
+                match mk(xf + a, xr + b) {
+                    Some(s) if p.sq[s as usize].is_none() && !between.contains(&s) => p.sq[s as usize] = Some((Kind::N, Col::W)),
+                    _ => continue,
+                }
+            }
+            _ => {
+                // a man that can capture the checker: pawn beside-below it, or a knight
+                let (a, b) = *rng.pick(&[(1, -1), (-1, -1), (1, 2), (2, 1), (-1, 2), (-2, 1), (2, -1), (-2, -1)]);
+                let k = if b == -1 && (a == 1 || a == -1) { Kind::P } else { Kind::N };
+                match mk(file_of(ss) + a, rank_of(ss) + b) {
+                    Some(s) if p.sq[s as usize].is_none() && !between.contains(&s) && !(k == Kind::P && (rank_of(s) == 0 || rank_of(s) == 7)) => {
+                        p.sq[s as usize] = Some((k, Col::W))
+                    }
+                    _ => continue,
+                }
+            }
+        }
+        // box the king in: own men on most neighbouring squares off the check line
+        for (a, b) in dirs.iter() {
+            if let Some(n) = mk(kf + a, kr + b) {
+                if p.sq[n as usize].is_none() && !between.contains(&n) && rng.chance(3, 4) {
+                    let k = if rank_of(n) == 0 || rank_of(n) == 7 { Kind::N } else { *rng.pick(&[Kind::P, Kind::P, Kind::N, Kind::B]) };
+                    p.sq[n as usize] = Some((k, Col::W));
+                }
+            }
+        }
+        // a few black guards for the remaining flight squares
+        for _ in 0..rng.range(0, 2) {
+            let gk = *rng.pick(&[Kind::R, Kind::Q, Kind::B, Kind::N]);
+            place_random(&mut p, rng, gk, Col::B);
+        }
+        place_random(&mut p, rng, Kind::K, Col::B);
+        p.stm = Col::W;
+        if p.men(Col::W) > 16 || p.count(Kind::P, Col::W) > 8 || !kings_apart(&p) || p.strict_validity_error().is_some() {
+            continue;
+        }
+        if p.checkers().len() != 1 {
+            continue;
+        }
+        let n = p.legal_moves().len();
+        if n == 0 {
+            continue;
+        }
+        if best.as_ref().map_or(true, |b| n < b.0) {
+            best = Some((n, p.clone()));
+        }
+        if n == 1 {
+            break;
+        }
+    }
+    let q = match best {
+        Some((_, q)) => q,
+        None => return endgame(rng),
+    };
+    if rng.chance(1, 2) {
+        let m = q.mirror_colour();
+        if m.strict_validity_error().is_none() {
+            return m;
+        }
+    }
+    q
 }
